@@ -98,6 +98,8 @@ def gen_const(rng):
     body = ''.join(rng.choice(digs) for _ in range(n))
     if st < 0.12:      # a digit the base does not have (ValueError)
         body = body[:-1] + rng.choice({'b': '29af', 'd': 'afC', 'h': 'f'}[base.lower()])
+    if rng.random() < 0.06 and base.lower() in 'bh':       # int(digits, base) accepts the prefix of the base: 1'b0b1 is ONE token and means 1'b1
+        body = rng.choice(['0b', '0B'] if base.lower() == 'b' else ['0x', '0X', '0b']) + (body if rng.random() < 0.9 else '')
     ws = ('0' * rng.choice([0, 0, 1])) + str(w)
     s = f"{ws}'{base}{body}"
     if st > 0.97:
